@@ -213,10 +213,13 @@ class MultipartDecoder:
 
         elif self.state == State.DATA_START:
             data, del_index, more_data = self._parse_data(self.buffer, start=True)
-            del self.buffer[:del_index]
-            event = Data(data=data, more_data=more_data)
-            if more_data:
-                self.state = State.DATA
+            # Nothing is consumed while the line break that ends the headers
+            # could still turn out to be the start of the next boundary.
+            if del_index > 0:
+                del self.buffer[:del_index]
+                event = Data(data=data, more_data=more_data)
+                if more_data:
+                    self.state = State.DATA
 
         elif self.state == State.DATA:
             data, del_index, more_data = self._parse_data(self.buffer, start=False)
@@ -262,13 +265,17 @@ class MultipartDecoder:
             # a partial boundary at the end. As the boundary
             # starts with either a nl or cr find the earliest and
             # return up to that as data.
-            data_end = del_index = self.last_newline(data[data_start:]) + data_start
+            data_end = del_index = self.last_newline(data)
             # If amount of data after last newline is far from
             # possible length of partial boundary, we should
             # assume that there is no partial boundary in the buffer
             # and return all pending data.
             if (len(data) - data_end) > len(b"\n" + boundary):
                 data_end = del_index = len(data)
+            elif data_end < data_start:
+                # Only the line break before the data is left, it may be
+                # the start of the boundary of a part without data.
+                data_end, del_index = data_start, 0
             more_data = True
         else:
             match = self.boundary_re.search(data)
@@ -280,7 +287,9 @@ class MultipartDecoder:
                 data_end = match.start()
                 del_index = match.end()
             else:
-                data_end = del_index = self.last_newline(data[data_start:]) + data_start
+                data_end = del_index = self.last_newline(data)
+                if data_end < data_start:
+                    data_end, del_index = data_start, 0
             more_data = match is None
 
         return bytes(data[data_start:data_end]), del_index, more_data
